@@ -36,6 +36,13 @@ def run_impl(case):
 
 def reference(case):
     key = json.dumps([case['prog'], case.get('auto_resumes')], sort_keys=True)
+    if case.get('explicit'):
+        # the schedule names its own resumes: the uninterrupted run is the same schedule without the pause / play requests
+        key = json.dumps([case['prog'], case['events']], sort_keys=True)
+        if key not in _REF:
+            ev = [e for e in case['events'] if not (e[0] == 'ctl' and e[1][0] in ('pause', 'play'))]
+            _REF[key] = life.strip_obs(life.run_case(dict(case, events=ev)))
+        return _REF[key]
     if key not in _REF:
         ref_case = dict(case, events=[['auto', 40]])
         _REF[key] = life.strip_obs(life.run_case(ref_case))
@@ -147,6 +154,13 @@ def generate(tier, rng, around=None):
         kt = {'quick': 160, 'thorough': 6000, 'widen': 1500}[tier]
         for t in (trip if len(trip) <= kt else rng.sample(trip, kt)):
             cases.append(dict(base, events=life.place_on(skeleton, [singles[x] for x in t]) + [['auto', 40]]))
+    # several wake-ups for one wait (only the first counts) interleaved with a pause in the same gap between two callbacks
+    wprog = programs()['wait'][0]
+    R1, R2, PA, PL = ['ctl', ['resume', 1]], ['ctl', ['resume', 2]], ['ctl', ['pause', None]], ['ctl', ['play']]
+    for nt in (1, 2):
+        for seq in ([PA, R1, R2], [R1, PA, R2], [R1, R2, PA], [PA, R1, PL, R2], [PA, PL, R1, R2], [PA, R1, R2, PL], [PA, R1, ['tick'], R2]):
+            cases.append({'prog': wprog, 'auto_resumes': [], 'explicit': True, '_prog': 'wait+two-resumes',
+                          'events': [['tick']] * nt + seq + [['drain', 30], PL, ['drain', 30]]})
     return {'cases': cases, 'exhaustive': True,
             'scope': '6 programs x every single pause/play request at every callback boundary and between a wake-up and the next callback; '
                      'pairs and triples (two requests in one loop iteration) sampled in the quick tier'}
